@@ -173,6 +173,12 @@ static int e_year, e_mon, e_mday, e_hour, e_min, e_sec; /* expected tm fields */
 static time_t e_off;                                    /* expected offset in seconds */
 static bool e_date_only;
 
+#ifndef GEN_FRAC
+#define GEN_FRAC nondet_bool()
+#endif
+#ifndef GEN_ZONE_Z
+#define GEN_ZONE_Z nondet_bool()
+#endif
 static void gen_iso(void) {
     e_hour = e_min = e_sec = 0;
     e_off = 0;
@@ -193,7 +199,7 @@ static void gen_iso(void) {
     e_min = put_2digits();
     if (tsep) put(':');
     e_sec = put_2digits();
-    if (nondet_bool()) { /* fraction: mark and one or more digits (as many as fit into 100 bytes) */
+    if (GEN_FRAC) { /* fraction: mark and one or more digits (as many as fit into 100 bytes) */
         put(nondet_bool() ? '.' : ',');
         size_t nfrac = nondet_size_t();
 #ifndef MAXFRAC
@@ -202,7 +208,7 @@ static void gen_iso(void) {
         __CPROVER_assume(nfrac >= 1 && nfrac <= MAXFRAC);
         for (size_t i = 0; i < nfrac; ++i) put_digit();
     }
-    if (nondet_bool()) {
+    if (GEN_ZONE_Z) {
         put(nondet_bool() ? 'Z' : 'z');
     } else {
         bool neg = nondet_bool();
